@@ -386,6 +386,93 @@ Section Rows.
     cond_run T teqb c (o :: os) = (Some e :: fst (cond_run T teqb c os), snd (cond_run T teqb c os)).
   Proof. intros H. cbn. rewrite H. now destruct (cond_run T teqb c os). Qed.
 
+  (* ---------------------------------------------------------------- builders as context managers *)
+  (* __exit__ of DfBase / Cfg returns None: the `with` statement hands on whatever the body did *)
+  Lemma with_stmt_plain fl : with_stmt fl plain_exit = fl.
+  Proof. destruct fl; reflexivity. Qed.
+  Theorem with_plain_transparent n fl : with_plain n fl = fl.
+  Proof. induction n as [|n IH]; cbn [with_plain]; [reflexivity|]. rewrite IH. apply with_stmt_plain. Qed.
+  (* an exception in flight is suppressed exactly by a true return value of __exit__ *)
+  Theorem with_stmt_suppresses_iff e x : with_stmt (Some e) x = None <-> x = Ok true.
+  Proof. destruct x as [[|]|e']; cbn; split; intros H; congruence. Qed.
+
+  Lemma cond_exit_err (c : cond T) e : cond_exit T c = Err e -> e = ConditionalError /\ UnbuiltCases c.
+  Proof.
+    unfold cond_exit, UnbuiltCases. destruct (forallb (fun b : bool => b) (c_built c)) eqn:E; [discriminate|].
+    intros H. split; [congruence|]. clear H. induction (c_built c) as [|b r IH]; [discriminate|].
+    cbn in E. destruct b; [right; auto|now left].
+  Qed.
+  Lemma cond_body_accepted (c : cond T) os c1 : Accepted teqb c os c1 -> cond_body T teqb c os = (c1, None).
+  Proof. induction 1 as [c|c o c1 r c2 H _ IH]; cbn; [reflexivity|]. now rewrite H. Qed.
+  Lemma cond_body_raises (c : cond T) body c1 e : RaisesInside teqb c body c1 e -> cond_body T teqb c body = (c1, Some e).
+  Proof.
+    intros (pre & o & post & -> & Ha & He). revert He.
+    induction Ha as [c|c o' c1 r c2 H _ IH]; intros He; cbn; [now rewrite He|]. rewrite H. now apply IH.
+  Qed.
+  (* the two predicates exhaust what a body can do *)
+  Lemma cond_body_cases (c : cond T) body :
+    match cond_body T teqb c body with
+    | (c1, None) => Accepted teqb c body c1
+    | (c1, Some e) => RaisesInside teqb c body c1 e
+    end.
+  Proof.
+    revert c. induction body as [|o r IH]; intros c; cbn; [constructor|].
+    destruct (cond_step T teqb c o) as [c'|e] eqn:E.
+    - specialize (IH c'). destruct (cond_body T teqb c' r) as [c1 [e|]].
+      + destruct IH as (pre & o1 & post & -> & Ha & He). exists (o :: pre), o1, post.
+        split; [reflexivity|]. split; [econstructor; eauto|exact He].
+      + econstructor; eauto.
+    - exists [], o, r. split; [reflexivity|]. split; [constructor|exact E].
+  Qed.
+  Lemma with_nest_state (c : cond T) ctxs body : fst (with_nest T teqb c ctxs body) = fst (cond_body T teqb c body).
+  Proof.
+    induction ctxs as [|k r IH]; cbn; [reflexivity|]. destruct (with_nest T teqb c r body) as [c' fl]. exact IH.
+  Qed.
+
+  (* an error raised inside the body of `with` blocks reaches the caller of the outermost one: as the error
+     that was raised, or as the ConditionalError of a Conditional context left with unbuilt cases *)
+  Theorem error_in_context_reaches_caller (c : cond T) body c1 e ctxs : RaisesInside teqb c body c1 e ->
+    exists e', with_nest T teqb c ctxs body = (c1, Some e') /\
+               (e' = e \/ (e' = ConditionalError /\ In CxCond ctxs /\ UnbuiltCases c1)).
+  Proof.
+    intros H. apply cond_body_raises in H. induction ctxs as [|k r IH]; cbn.
+    - exists e. auto.
+    - destruct IH as (e1 & -> & Hd). destruct k; cbn.
+      + exists e1. split; [reflexivity|]. destruct Hd as [->|(-> & Hi & Hu)]; [now left|right; cbn; auto].
+      + unfold cond_ctx_exit. destruct (cond_exit T c1) as [c2|e2] eqn:E; cbn.
+        * exists e1. split; [reflexivity|]. destruct Hd as [->|(-> & Hi & Hu)]; [now left|right; cbn; auto].
+        * destruct (cond_exit_err _ _ E) as [-> Hu]. exists ConditionalError. split; [reflexivity|]. right. cbn. auto.
+  Qed.
+  (* a Conditional context left with unbuilt cases raises, whatever the body did *)
+  Theorem context_left_with_unbuilt_raises (c : cond T) body c1 ctxs :
+    Accepted teqb c body c1 \/ (exists e, RaisesInside teqb c body c1 e) ->
+    In CxCond ctxs -> UnbuiltCases c1 -> with_nest T teqb c ctxs body = (c1, Some ConditionalError).
+  Proof.
+    intros Hb Hi Hu.
+    assert (Hs : fst (cond_body T teqb c body) = c1).
+    { destruct Hb as [Ha|[e Hr]]; [now rewrite (cond_body_accepted _ _ _ Ha)|now rewrite (cond_body_raises _ _ _ _ Hr)]. }
+    clear Hb. induction ctxs as [|k r IH]; [destruct Hi|]. cbn.
+    destruct (with_nest T teqb c r body) as [c' fl] eqn:E.
+    assert (c' = c1) as -> by (rewrite <- Hs, <- (with_nest_state c r body), E; reflexivity).
+    destruct k; cbn.
+    - destruct Hi as [Hi|Hi]; [discriminate|]. specialize (IH Hi). inversion IH. reflexivity.
+    - unfold cond_ctx_exit. now rewrite (exit_with_unbuilt_raises _ Hu).
+  Qed.
+  (* no spurious refusal: a body of accepted calls inside contexts that have nothing to object to *)
+  Theorem consistent_block_accepted (c : cond T) body c1 ctxs : Accepted teqb c body c1 ->
+    (In CxCond ctxs -> ~ UnbuiltCases c1) -> with_nest T teqb c ctxs body = (c1, None).
+  Proof.
+    intros Ha Hn. apply cond_body_accepted in Ha. induction ctxs as [|k r IH]; cbn; [exact Ha|].
+    rewrite IH by (intros Hi; apply Hn; now right). destruct k; cbn; [reflexivity|].
+    unfold cond_ctx_exit. rewrite exit_all_built_accepted by (apply Hn; now left). reflexivity.
+  Qed.
+  (* a session of plain statements is the session of caught calls *)
+  Theorem stmt_run_plain (c : cond T) os : stmt_run T teqb c (map plain_stmt os) = cond_run T teqb c os.
+  Proof.
+    revert c. induction os as [|o r IH]; intros c; cbn; [reflexivity|].
+    destruct (cond_step T teqb c o) as [c'|e]; rewrite IH; reflexivity.
+  Qed.
+
   (* ---------------------------------------------------------------- exit type, declared outputs *)
   Theorem exit_mismatch_raises (exit : option (row T)) out : ExitDisagrees exit out ->
     branch_exit T teqb exit out = Err MismatchedExit.
@@ -612,3 +699,24 @@ Example ex_root_source :
   wire_up_dfg ex_pt 3 11 KValue = Ok (Some (3, 3)) /\
   sibling_ancestor_b ex_pt 0 11 = false /\ inside_cfg_b ex_pt 6 0 = false.
 Proof. vm_compute. repeat split. Qed.
+
+(* builders as context managers (seeded round 4).  Both cases of a conditional are requested inside `with cond:`
+   (and `with case:`), the second one's outputs disagree: the ConditionalError leaves the block; a block that
+   builds one case of two is refused on exit; the consistent block is accepted; and what the model excludes: an
+   __exit__ returning a true value would swallow the error *)
+Example ex_with_cond :
+  with_nest nat Nat.eqb (mkCond [false; false] None) [CxCond; CxPlain]
+    [OAddCase 0%Z; OSetOutputs [1]; OAddCase 1%Z; OSetOutputs [2]]
+    = (mkCond [true; true] (Some [1]), Some ConditionalError) /\
+  with_nest nat Nat.eqb (mkCond [false; false] None) [CxPlain; CxCond] [OAddCase 0%Z; OSetOutputs [1]]
+    = (mkCond [true; false] (Some [1]), Some ConditionalError) /\
+  with_nest nat Nat.eqb (mkCond [false; false] None) [CxCond]
+    [OAddCase 1%Z; OSetOutputs [1]; OAddCase 0%Z; OSetOutputs [1]] = (mkCond [true; true] (Some [1]), None) /\
+  RaisesInside Nat.eqb (mkCond [false; false] None) [OAddCase 0%Z; OSetOutputs [1]; OAddCase 1%Z; OSetOutputs [2]]
+    (mkCond [true; true] (Some [1])) ConditionalError /\
+  with_stmt (Some ConditionalError) (Ok true) = None.
+Proof.
+  vm_compute. repeat split.
+  exists [OAddCase 0%Z; OSetOutputs [1]; OAddCase 1%Z], (OSetOutputs [2]), []. split; [reflexivity|]. split; [|reflexivity].
+  repeat (econstructor; [reflexivity|]). constructor.
+Qed.
